@@ -20,7 +20,10 @@ def pub(case_or_rename, i):
     return 'from' if r and i == 0 else 'a%d' % (i + 1)
 
 
-def build(style, n, ret, seen, rename=False, dflt=False):
+CLOSED = [False]
+
+
+def build(style, n, ret, seen, rename=False, dflt=False, aux=False, ostr=False):
     """-> (application, method name).  seen: list collecting the args of each invocation"""
     from spyne import Application, Service, srpc, Integer, Fault, ComplexModel, Iterable, Ignored
     from spyne.protocol.xml import XmlDocument
@@ -94,6 +97,9 @@ def build(style, n, ret, seen, rename=False, dflt=False):
         def body(*args):
             record(args)
             yield R[0]
+            if ostr and CLOSED[0]:
+                # the rows come from something that is released when the context is closed
+                raise IOError('read after the context was closed')
             yield R[1]
     else:
         def body(*args):
@@ -107,8 +113,26 @@ def build(style, n, ret, seen, rename=False, dflt=False):
     ns = {'body': body}
     exec(src, ns)
     S = type('S', (Service,), {'f': srpc(*argt, **kw)(ns['f'])})
-    app = Application([S], 'tns', in_protocol=XmlDocument(), out_protocol=XmlDocument())
+    services = [S]
+    if aux:
+        from spyne.auxproc.sync import SyncAuxProc
+
+        def auxbody(*args):
+            # runs on the side; what it returns (or raises) is nobody's result
+            AUXRAN.append(1)
+            return {'one': 999, 'two': (999, 998), 'fault': 999}.get(ret)
+        ns2 = {'body': auxbody}
+        exec(src, ns2)
+        services.append(type('SAux', (Service,), {'__aux__': SyncAuxProc(), 'f': srpc(*argt, **kw)(ns2['f'])}))
+    app = Application(services, 'tns', in_protocol=XmlDocument(), out_protocol=XmlDocument())
+
+    def closed(ctx):
+        CLOSED[0] = True
+    app.event_manager.add_listener('method_context_closed', closed)
     return app
+
+
+AUXRAN = []
 
 
 NODE = [None]
@@ -148,9 +172,24 @@ def fault_of(e):
     return ['fault', code.split('.')]
 
 
+def read_xml(out):
+    from lxml import etree
+    if not out.strip():
+        return ['value', []]
+    root = etree.fromstring(out)
+    if etree.QName(root).localname == 'Fault':
+        code = root.find('faultcode').text
+        return ['fault', (code.split(':', 1)[1] if ':' in code else code).split('.')]
+    leaves = [e.text for e in root.iter() if len(e) == 0 and e.text is not None and e.text.strip() != '']
+    try:
+        return ['value', [int(x) for x in leaves]]
+    except ValueError:
+        return ['value', leaves]
+
+
 def direct(app, case, seen):
     from spyne.server.null import NullServer
-    ns = NullServer(app)
+    ns = NullServer(app, ostr=True) if case.get('ostr') else NullServer(app)
     pos, kw = [], {}
     names = [pub(case, i) for i in range(3)]
     for i, m in enumerate(case['modes']):
@@ -164,8 +203,13 @@ def direct(app, case, seen):
         elif m == 'both': pos.append(alt); kw[names[i]] = v
         elif m == 'kwnil': pos.append(v); kw[names[i]] = None
     del seen[:]
+    CLOSED[0] = False
     try:
-        res = norm(ns.service.f(*pos, **kw))
+        r = ns.service.f(*pos, **kw)
+        if case.get('ostr'):
+            res = read_xml(b''.join(r))          # the serialized response, as the wire carries it
+        else:
+            res = norm(r)
     except Exception as e:
         res = fault_of(e)
     return res, [list(s) for s in seen]
@@ -185,6 +229,7 @@ def wire_json(app, case, seen):
     vals = packed(case)
     body = json.dumps({'f': {pub(case, i): v for i, v in enumerate(vals) if v is not None}}).encode()
     del seen[:]
+    CLOSED[0] = False
     try:
         status, out = call_wsgi(w, body, 'application/json')
     except Exception as e:
@@ -224,6 +269,7 @@ def wire_xml(app, case, seen):
                     '<tns:%s>%d</tns:%s>' % (pub(case, i), v, pub(case, i)) for i, v in enumerate(vals) if v is not None)
     body = ('<tns:f xmlns:tns="tns">%s</tns:f>' % inner).encode()
     del seen[:]
+    CLOSED[0] = False
     try:
         status, out = call_wsgi(w, body, 'text/xml')
     except Exception as e:
@@ -250,6 +296,7 @@ def wire_client(app, case, seen, prot):
     cl = LoopbackClient(WsgiApplication(app2), app2)
     vals = packed(case)
     del seen[:]
+    CLOSED[0] = False
     try:
         res = norm(cl.service.f(*vals))
     except Exception as e:
@@ -329,7 +376,7 @@ def run(ctx):
         seen = []
         n = len(c['modes'])
         try:
-            app = build(c['style'], n, c['ret'], seen, c['rename'], c['dflt'])
+            app = build(c['style'], n, c['ret'], seen, c['rename'], c['dflt'], c['aux'], c['ostr'])
         except Exception as e:
             ctx.violation('cannot-build|style=%s|n=%d|ret=%s|%s' % (c['style'], n, c['ret'], type(e).__name__),
                           'application for %s cannot be built: %s' % (c, e), {'case': c})
@@ -338,7 +385,7 @@ def run(ctx):
         wires = [('xml',) + wire_xml(app, c, seen)]
         if c['style'] not in ('bare', 'bare_rec', 'bare_inh'):          # JsonDocument cannot take a bare complex request (documented limitation)
             wires.append(('json',) + wire_json(app, c, seen))
-        if c['style'] in ('wrapped',) and c['ret'] not in ('gen',):
+        if c['style'] in ('wrapped',) and c['ret'] not in ('gen',) and not c['aux']:      # (the Spyne client cannot call a method that has an auxiliary twin)
             for name, prot in (('soap11-client', Soap11), ('xml-client', XmlDocument)):
                 wires.append((name,) + wire_client(app, c, seen, prot))
 
@@ -373,7 +420,7 @@ def run(ctx):
                     continue
                 c = rec['case']
                 ctx.violation('%s|wire=%s|style=%s|ret=%s|modes=%s%s%s' % ('+'.join(cl), rec['wire'], c['style'], c['ret'], ','.join(c['modes']) or '-', '|renamed' if c['rename'] else '',
-                                                                          '|defaults' if c['dflt'] else ''),
+                                                                          ('|defaults' if c['dflt'] else '') + ('|aux' if c['aux'] else '') + ('|ostr' if c['ostr'] else '')),
                               'clauses %s fail: direct %s args %s; wire(%s) %s args %s' % (
                                   cl, rec['obs']['dres'], rec['obs']['dargs'], rec['wire'], rec['obs']['wres'], rec['obs']['wargs']),
                               {'case': c, 'observation': rec['obs'], 'wire': rec['wire']})
